@@ -154,7 +154,15 @@ DeepTransformFails(c) ==
                 ~b.ok \/ ~(SeqSet(c.res.o) \subseteq DOMAIN b.v) \/ c.res.i # c.orig.i \/ Len(c.res.o) # Len(c.orig.o) \/
                 \A k \in DOMAIN c.orig.o : b.v[c.res.o[k]] = a.v[c.orig.o[k]]>>,
             <<c.what \o "-more-gates", ~c.not_larger \/ Cardinality(DOMAIN GB) <= Cardinality(DOMAIN GA)>>,
-            <<c.what \o "-gate-type-outside-the-target-basis", c.types = <<>> \/ \A l \in DOMAIN GB : GB[l].t \in SeqSet(c.types)>>
+            <<c.what \o "-gate-type-outside-the-target-basis", c.types = <<>> \/ \A l \in DOMAIN GB : GB[l].t \in SeqSet(c.types)>>,
+            \* bench conversion: a helper gate (a new gate read by a rewritten gate) joins every block that holds that gate
+            <<c.what \o "-helper-gates-inside-the-blocks-of-the-rewritten-gate",
+                ~Has(c, "check_helper_blocks") \/
+                \A B \in DOMAIN c.orig.b :
+                   /\ B \in DOMAIN c.res.b
+                   /\ \A g \in SeqSet(c.orig.b[B].g) :
+                        g \in DOMAIN GB =>
+                          \A h \in SeqSet(GB[g].o) : h \in DOMAIN GA \/ h \in SeqSet(c.res.b[B].g)>>
           >>)
 DeepTransformDrift(c) ==
   IF c.exc # "" THEN {}
